@@ -234,6 +234,11 @@ def run_cases(bdir, mod, fn, pairs, shard=400, jobs=12, timeout=900):
     bad, errs = [], []
     with ThreadPoolExecutor(max_workers=jobs) as ex:
         results = list(ex.map(one, paths))
+    # a shard that timed out (an overloaded machine) is evaluated once more on its own with a longer limit;
+    # a second timeout is reported as a model-evaluation error (fail closed)
+    for k, (rc, out) in enumerate(results):
+        if rc == 124:
+            results[k] = coqc(paths[k], bdir, timeout=timeout * 4)
     for k, (rc, out) in enumerate(results):
         if rc != 0:
             errs.append("cases_%d.v: coqc rc=%s: %s" % (k, rc, out[-1500:]))
